@@ -12,6 +12,9 @@ ID = "C15"
 READY = True
 LEAN_TARGETS = ["NauyacaVerif.Props.C15"]
 THEOREMS = ['NauyacaVerif.C15.armed_while_waiting', 'NauyacaVerif.C15.armed_before_deadline', 'NauyacaVerif.C15.silent_closed', 'NauyacaVerif.C15.timeout_response', 'NauyacaVerif.C15.no_timeout_after_complete', 'NauyacaVerif.C15.tick_noop_after_complete', 'NauyacaVerif.C15.never_rearmed', 'NauyacaVerif.C15.pump_armed', 'NauyacaVerif.C15.pump_handshake_timeout_closes', 'NauyacaVerif.C15.pump_inner_timer', 'NauyacaVerif.C15.requestTimeout_tie', 'NauyacaVerif.C15.flow_tick_after_send', 'NauyacaVerif.C15.flow_tick_fires', 'NauyacaVerif.C15.sys_timeout_closes']
+LEAN_TARGETS = LEAN_TARGETS + ["NauyacaVerif.Props.Tr.DataReceived"]
+TRANSLATED = ["dataReceived"]
+THEOREMS = THEOREMS + ["NauyacaVerif.Translated.data_received_refines", "NauyacaVerif.Translated.data_received_rel"]
 EXTRACT = ["requestTimeout8"]
 LEVEL_TEXT = "Proved over explicit time (1/8 s ticks) for every event list: the request timer is armed exactly while waiting for the line or Titan body on a connected unanswered connection, never re-armed, the deadline has not passed while it is armed, a connection still waiting at the deadline is gone, the timeout response is exactly '40 Request timeout' + close, no timeout once the request is complete; PyOpenSSL pump: handshake timer armed until the handshake completes and closing when it fires. Correspondence: stall after every byte offset of Gemini and Titan requests under a virtual clock with boundary ticks (239/240), trickling, expiry ordered before/after late data, completion and disconnect; stall at each TLS handshake flight of the real pump. Partial: the stdlib backend's handshake timeout is asyncio.sslproto's (only its presence is observable live)."
 LEVEL_NOTE = "Trusted: Lean kernel (axioms propext, Classical.choice, Quot.sound only); the hand-written model Srv.step/Srv.pumpStep is tied to /repo by extraction (constants, 'every transport.write sits in _send_response') and by the correspondence run of every check (fake transport with asyncio's write-after-close semantics, virtual-clock loop, scripted handlers; real PyOpenSSL pump over memory BIOs); asyncio's transport/timer contract, OpenSSL's record layer and Python exception texts are assumed, see assumptions."
